@@ -67,6 +67,7 @@ func checkMain(args []string) int {
 	verbose := fs.Bool("v", false, "print every obligation")
 	only := fs.String("only", "", "substring filter on unit names (debugging; evidence is not written)")
 	dump := fs.String("dump", "", "directory to dump failing SMT scripts into")
+	noEv := fs.Bool("noevidence", false, "do not write evidence or replay files into /verif (self-test runs against scratch trees)")
 	fs.Parse(args)
 	if *tier == "" {
 		*tier = "quick"
@@ -266,7 +267,7 @@ func checkMain(args []string) int {
 		machinery = append(machinery, "no obligations generated")
 	}
 	wall := time.Since(t0).Seconds()
-	if *only == "" {
+	if *only == "" && !*noEv {
 		if err := writeEvidence(w, *prop, *tier, seed, ps, gens, items, explicit, trivial, canaries, vacuous, wall, tLoad, tGen, violations, kf); err != nil {
 			machinery = append(machinery, "evidence: "+err.Error())
 		}
